@@ -8,6 +8,7 @@ import (
 	"go/constant"
 	"go/token"
 	"go/types"
+	"math"
 	"math/big"
 	"strconv"
 	"strings"
@@ -346,6 +347,12 @@ func (e *specEnv) expr(x ast.Expr, sg *SGo) Val {
 				sfail("bad string literal")
 			}
 			return Val{T: tr.C.strConst(s), Ty: types.Typ[types.String]}
+		case token.FLOAT:
+			f, err := strconv.ParseFloat(x.Value, 64)
+			if err != nil {
+				sfail("bad float literal %s", x.Value)
+			}
+			return Val{T: bvLit(bigFromU(math.Float64bits(f)), 64), Ty: types.Typ[types.Float64]}
 		}
 		sfail("unsupported literal %s", x.Value)
 	case *ast.Ident:
@@ -702,6 +709,33 @@ func (e *specEnv) binary(op token.Token, a, b Val) Val {
 			b = e.coerce(b, a.Ty)
 		}
 		return Val{T: e.tr.shift(op == token.SHL, a, b), Ty: a.Ty}
+	}
+	if (a.K == nil && a.Ty != nil && isFloat(a.Ty)) || (b.K == nil && b.Ty != nil && isFloat(b.Ty)) {
+		// floating-point comparison (exact IEEE semantics); an integer constant operand is converted
+		ft := a.Ty
+		if a.K != nil || !isFloat(a.Ty) {
+			ft = b.Ty
+		}
+		w := intWidth(ft)
+		lit := func(v Val) Val {
+			if v.K == nil {
+				return v
+			}
+			f, _ := new(big.Float).SetInt(v.K).Float64()
+			if w == 32 {
+				return Val{T: bvLit(bigFromU(uint64(math.Float32bits(float32(f)))), 32), Ty: ft}
+			}
+			return Val{T: bvLit(bigFromU(math.Float64bits(f)), 64), Ty: ft}
+		}
+		a, b = lit(a), lit(b)
+		if !isFloat(a.Ty) || !isFloat(b.Ty) || intWidth(a.Ty) != intWidth(b.Ty) {
+			sfail("operator %v on a float and %v / %v (convert explicitly)", op, a.Ty, b.Ty)
+		}
+		c := fpCompare(op, a.T, b.T, w)
+		if c == "" {
+			sfail("floating-point operator %v is not supported in specifications (comparisons only)", op)
+		}
+		return Val{T: c, Ty: tBool}
 	}
 	a, b = e.unify(a, b)
 	if a.Nil && b.Nil {
